@@ -334,6 +334,15 @@ public:
 
   // ── Send ───────────────────────────────────────────────────────────────
   //
+  // DATA-AFTER-CLOSE PREVENTION (RFC 6455 Section 5.5.1, the client-side twin of
+  // WebSocketServer's closeSent recheck): every path that hands a CLOSE frame to
+  // the transport (sendClose — also used for the echo of the peer's CLOSE — and
+  // the courtesy CLOSE in teardownTransport) sets _closeSent under _sendMutex in
+  // the same critical section as the hand-over; sendText/sendBinary/sendPing
+  // recheck it under the same mutex around their own hand-over. So no data frame
+  // can follow our CLOSE frame on the wire. _sendMutex is taken with no other
+  // client lock held and ordered before _transportMutex (sendRawBytes).
+  //
   // The `_state == CONNECTED` early-out in each send method is ADVISORY (a cheap
   // non-synchronizing fast-path). The AUTHORITATIVE gate is the {_transport,
   // _sessionId} snapshot taken under _transportMutex in sendRawBytes(): if a
@@ -347,6 +356,8 @@ public:
     auto frame = WebSocketFrame::makeText(text);
     generateMaskKey(frame.maskKey);
     auto wire = frame.serialize(true); // client MUST mask
+    std::lock_guard<std::mutex> lock(_sendMutex);
+    if (_closeSent) return; // drop: our CLOSE frame is already on its way
     sendRawBytes(wire.data(), wire.size());
   }
 
@@ -356,6 +367,8 @@ public:
     auto frame = WebSocketFrame::makeBinary(data);
     generateMaskKey(frame.maskKey);
     auto wire = frame.serialize(true);
+    std::lock_guard<std::mutex> lock(_sendMutex);
+    if (_closeSent) return; // drop: our CLOSE frame is already on its way
     sendRawBytes(wire.data(), wire.size());
   }
 
@@ -365,6 +378,8 @@ public:
     auto frame = WebSocketFrame::makePing(payload);
     generateMaskKey(frame.maskKey);
     auto wire = frame.serialize(true);
+    std::lock_guard<std::mutex> lock(_sendMutex);
+    if (_closeSent) return; // drop: our CLOSE frame is already on its way
     sendRawBytes(wire.data(), wire.size());
   }
 
@@ -377,6 +392,8 @@ public:
     auto frame = WebSocketFrame::makeClose(code, reason);
     generateMaskKey(frame.maskKey);
     auto wire = frame.serialize(true);
+    std::lock_guard<std::mutex> lock(_sendMutex);
+    _closeSent = true; // from here on sendText/sendBinary/sendPing drop
     sendRawBytes(wire.data(), wire.size());
   }
 
@@ -554,6 +571,10 @@ private:
     _upgradeComplete.store(false);
     _closeEchoed.store(false); // re-arm the one-shot CLOSE echo for this connection
     _recvFailed.store(false);  // a fresh connection reads again
+    {
+      std::lock_guard<std::mutex> lock(_sendMutex);
+      _closeSent = false; // no CLOSE sent on the new connection yet
+    }
 
     // Register the global callbacks on the LOCAL transport. Each weak-captures
     // the client (NEVER an owning shared_ptr<Transport> of its own _transport —
@@ -1099,6 +1120,10 @@ private:
         generateMaskKey(frame.maskKey);
         auto wire = frame.serialize(true);
         auto shared = std::make_shared<std::vector<std::uint8_t>>(std::move(wire));
+        // Same gate as sendClose(): a send that snapshotted the transport before
+        // the reset above must not slip a data frame in behind this CLOSE.
+        std::lock_guard<std::mutex> sendLock(_sendMutex);
+        _closeSent = true;
         t->sendAsync(sid, shared->data(), shared->size(),
                      [shared](SessionId, const SendResult&) {});
       }
@@ -1292,6 +1317,10 @@ private:
   // Set by failConnection(): the peer violated the protocol, its remaining
   // bytes are discarded. Re-armed per connection in doConnect().
   std::atomic<bool> _recvFailed{false};
+
+  // Send-side close gate (see "DATA-AFTER-CLOSE PREVENTION" above).
+  std::mutex _sendMutex;
+  bool _closeSent = false; // guarded by _sendMutex; re-armed in doConnect()
 
   // Fragment reassembly (protected by _dataMutex)
   std::vector<std::uint8_t> _fragmentBuffer;
